@@ -151,5 +151,79 @@ pub open spec fn hdr32(code: u8, e: IsArrayElement, body_len: int, count: int) -
         r is Ok ==> r->Ok_0 == (if !(*is_array_element is False) { hdr32(0xd1, *is_array_element, len as int, 0) } else if len <= 254 { hdr8(0xc1, *is_array_element, len as int, 0) } else { hdr32(0xd1, *is_array_element, len as int, 0) }).len() + len,   // [C20.size.map]
 //@@ end
 
+// ---- the size of a DESCRIBED composite (derive(SerializeComposite)): descriptor, then the list / map of its fields ----
+//@@ type file=serde_amqp/src/util.rs kind=enum name=StructEncoding
+//@@ end
+impl Copy for StructEncoding {}
+impl Clone for StructEncoding { fn clone(&self) -> (r: Self) ensures r == *self { *self } }
+/// SizeSerializer: the two fields the struct serializers read. `struct_encoding()` = the innermost pending encoding (`.last().unwrap_or(&None)`), `struct_encoding.pop()` drops it
+pub struct EncStack { pub v: Vec<StructEncoding> }
+impl EncStack {
+    pub fn pop(&mut self) -> (r: Option<StructEncoding>) ensures final(self).v@ == (if old(self).v@.len() > 0 { old(self).v@.drop_last() } else { old(self).v@ }) { self.v.pop() }
+}
+pub struct SizeSerializer { pub struct_encoding: EncStack, pub is_array_element: IsArrayElement }
+pub open spec fn sp_top(s: Seq<StructEncoding>) -> StructEncoding { if s.len() > 0 { s.last() } else { StructEncoding::None } }
+impl SizeSerializer {
+    pub fn struct_encoding(&self) -> (r: &StructEncoding) ensures *r == sp_top(self.struct_encoding.v@) {
+        if self.struct_encoding.v.len() > 0 { &self.struct_encoding.v[self.struct_encoding.v.len() - 1] } else { &StructEncoding::None }
+    }
+}
+/// octets of a list / map holding `body` octets of fields, as the ENCODER writes it (write_list / write_map above)
+pub open spec fn sp_list_octets(e: IsArrayElement, body: int) -> int {
+    (if !(e is False) { hdr32(0xd0, e, body, 0) } else if body == 0 { seq![0x45u8] } else if body <= 254 { hdr8(0xc0, e, body, 0) } else { hdr32(0xd0, e, body, 0) }).len() + body
+}
+pub open spec fn sp_map_octets(e: IsArrayElement, body: int) -> int {
+    (if !(e is False) { hdr32(0xd1, e, body, 0) } else if body <= 254 { hdr8(0xc1, e, body, 0) } else { hdr32(0xd1, e, body, 0) }).len() + body
+}
+//@@ type file=serde_amqp/src/size_ser.rs kind=struct name=StructSerializer
+//@@ subst `<'a>` => `` rule=R30
+//@@ subst `&'a mut SizeSerializer` => `SizeSerializer` rule=R30
+//@@ end
+//@@ type file=serde_amqp/src/size_ser.rs kind=struct name=TupleStructSerializer
+//@@ subst `<'a>` => `` rule=R30
+//@@ subst `&'a mut SizeSerializer` => `SizeSerializer` rule=R30
+//@@ subst `field_role: FieldRole,` => `` rule=R11
+//@@ end
+impl StructSerializer {
+//@@ fn file=serde_amqp/src/size_ser.rs impl=`impl ser::SerializeStruct for StructSerializer<'_>` name=end id=StructSerializer::end
+//@@ ret Result<usize, Error>
+//@@ selfmut
+//@@ subst `|_v0| Error::too_long()` => `|_v0: usize| -> (o: Error) { Error::too_long() }` rule=R18
+//@@ subst `|_v1| Error::too_long()` => `|_v1: usize| -> (o: Error) { Error::too_long() }` rule=R18
+//@@ subst `|_v2| Error::too_long()` => `|_v2: usize| -> (o: Error) { Error::too_long() }` rule=R18
+//@@ subst `|size| self.descriptor_size + size` => `|size: usize| -> (o: usize) requires size <= self.cumulated_size + 9 ensures o == self.descriptor_size + size { self.descriptor_size + size }` rule=optional-R18
+//@@ spec
+    requires
+        old(self).descriptor_size + old(self).cumulated_size + 9 <= usize::MAX,      // sizes of in-memory values
+    ensures
+        r is Ok ==> r->Ok_0 == (match sp_top(old(self).se.struct_encoding.v@) {
+            StructEncoding::None => sp_list_octets(old(self).se.is_array_element, old(self).cumulated_size as int),
+            StructEncoding::DescribedList => old(self).descriptor_size + sp_list_octets(old(self).se.is_array_element, old(self).cumulated_size as int),   // [C20.size.described-composite] a described composite is its descriptor FOLLOWED by the list of its fields: the size announced is the descriptor's octets plus what the encoder writes for a list with that BODY (list0 for an empty body, list8 up to 254 body octets) -- the descriptor is not part of the body the header width is chosen from (`Accepted` = 00 53 24 45: 4 octets, not 6)
+            StructEncoding::DescribedMap => old(self).descriptor_size + sp_map_octets(old(self).se.is_array_element, old(self).cumulated_size as int),     // [C20.size.described-composite]
+            StructEncoding::DescribedBasic => old(self).descriptor_size + old(self).cumulated_size,
+        }),
+//@@ end
+}
+impl TupleStructSerializer {
+//@@ fn file=serde_amqp/src/size_ser.rs impl=`impl ser::SerializeTupleStruct for TupleStructSerializer<'_>` name=end id=TupleStructSerializer::end
+//@@ ret Result<usize, Error>
+//@@ selfmut
+//@@ subst `|_v0| Error::too_long()` => `|_v0: usize| -> (o: Error) { Error::too_long() }` rule=R18
+//@@ subst `|_v1| Error::too_long()` => `|_v1: usize| -> (o: Error) { Error::too_long() }` rule=R18
+//@@ subst `|size| self.descriptor_size + size` => `|size: usize| -> (o: usize) requires size <= self.cumulated_size + 9 ensures o == self.descriptor_size + size { self.descriptor_size + size }` rule=optional-R18
+//@@ subst `unreachable!("TupleStructSerializer is NOT used for DescribedMap")` => `{ assume(false); Err(Error::Other) }` rule=R12
+//@@ spec
+    requires
+        old(self).descriptor_size + old(self).cumulated_size + 9 <= usize::MAX,
+        !(sp_top(old(self).se.struct_encoding.v@) is DescribedMap),       // ASSUMED: serialize_tuple_struct is not entered for a described map (the arm is `unreachable!`)
+    ensures
+        r is Ok ==> r->Ok_0 == (match sp_top(old(self).se.struct_encoding.v@) {
+            StructEncoding::DescribedList => old(self).descriptor_size + sp_list_octets(old(self).se.is_array_element, old(self).cumulated_size as int),   // [C20.size.described-composite]
+            StructEncoding::DescribedBasic => old(self).descriptor_size + old(self).cumulated_size,
+            _ => sp_list_octets(old(self).se.is_array_element, old(self).cumulated_size as int),
+        }),
+//@@ end
+}
+
 } // verus!
 fn main() {}
